@@ -96,10 +96,17 @@ def fl(r):
         return math.inf if r[0] > 0 else -math.inf
 
 
+def _shift(case):
+    """k when the count column is stored as float64 values v * 4**-k (v the integer of the case): the stored matrix is
+    s*A with s = 4**-k.  Every filter but min_count is scale-free (min_count: s*m < c  <=>  m < c * 4**k), and the row
+    sums of s*A under weights w are those of A under w * 2**-k, so the integer model answers for the scaled file too."""
+    return int(case.get("shift", 0))
+
+
 def _args(case):
     o = case["opts"]
     return dict(n=case["n"], offsets=case["offsets"], pixels=case["pixels"], mode=o["mode"],
-                ignore_diags=o["ignore_diags"], min_nnz=o["min_nnz"], min_count=o["min_count"], mad_max=o["mad_max"],
+                ignore_diags=o["ignore_diags"], min_nnz=o["min_nnz"], min_count=o["min_count"] * 4 ** _shift(case), mad_max=o["mad_max"],
                 blacklist=o["blacklist"],
                 x0=None if o["x0"] is None else [None if v is None else q(v) for v in o["x0"]],
                 tol=q(o["tol"]), max_iters=o["max_iters"])
@@ -117,7 +124,12 @@ def _mk(case, tag):
                         "bin2_id": np.array([p[1] for p in px], dtype=np.int64),
                         "count": np.array([p[2] for p in px], dtype=np.int32)})
     path = os.path.join(gen.tmpdir(), f"c10-{tag}-{os.getpid()}.cool")
-    cooler.create_cooler(path, df, pdf, ordered=True)
+    k = _shift(case)
+    if k:
+        pdf["count"] = np.array([p[2] for p in px], dtype=np.float64) / float(4 ** k)   # exact: dyadic
+        cooler.create_cooler(path, df, pdf, ordered=True, dtypes={"count": np.float64})
+    else:
+        cooler.create_cooler(path, df, pdf, ordered=True)
     return path
 
 
@@ -127,7 +139,7 @@ def _kwargs(case):
     return dict(cis_only=o["mode"] == "cis", trans_only=o["mode"] == "trans", ignore_diags=o["ignore_diags"],
                 mad_max=o["mad_max"], min_nnz=o["min_nnz"], min_count=o["min_count"],
                 blacklist=(list(o["blacklist"]) if o["blacklist"] else None), rescale_marginals=o["rescale"], x0=x0,
-                tol=o["tol"], max_iters=o["max_iters"], chunksize=None, map=map)
+                tol=o["tol"], max_iters=o["max_iters"], chunksize=o.get("chunksize"), map=map)
 
 
 def _run(case, tag="r", store=False):
@@ -311,7 +323,8 @@ def _check_masks(case, bias, doms):
 def _verify(case, bias, doms, variant):
     scales = [q(d["scale"]) if (d["converged"] and math.isfinite(d["scale"])) else None for d in doms]
     a = _args(case)
-    return drv().ask("C10.verify", weights=[None if np.isnan(x) else q(x) for x in bias], rescaled=case["opts"]["rescale"],
+    h = float(2 ** _shift(case))
+    return drv().ask("C10.verify", weights=[None if np.isnan(x) else q(x / h) for x in bias], rescaled=case["opts"]["rescale"],
                      slack=q(SLACK), variant=variant, scales=scales, **a)["domains"]
 
 
@@ -436,6 +449,20 @@ def _cli(case):
             argv.append("--cis-only")
         if o["mode"] == "trans":
             argv.append("--trans-only")
+        if o.get("chunksize"):
+            argv += ["-c", str(o["chunksize"])]
+        bed = None
+        if o["blacklist"]:
+            # --blacklist BED: each listed bin as two half-bin regions (exactly that bin overlaps them); the first
+            # region starts ON the bin boundary, the second ends on it
+            offs = case["offsets"]
+            bed = path + ".blacklist.bed"
+            with open(bed, "w") as f:
+                for b in o["blacklist"]:
+                    cidx = max(k for k in range(len(offs) - 1) if offs[k] <= b)
+                    s0 = 10 * (b - offs[cidx])
+                    f.write(f"{gen.chromname(cidx)}\t{s0}\t{s0 + 5}\n{gen.chromname(cidx)}\t{s0 + 5}\t{s0 + 10}\n")
+            argv += ["--blacklist", bed]
         r = CliRunner().invoke(cli, argv + [path])
         if r.exit_code != 0:
             return {"mismatch": True, "impl": f"exit {r.exit_code}", "output": (r.output or "")[-300:], "exc": repr(r.exception)}
@@ -443,8 +470,9 @@ def _cli(case):
             col = h5["bins/weight"][:]
             attrs = {k: (v.tolist() if hasattr(v, "tolist") else v) for k, v in h5["bins/weight"].attrs.items()}
     finally:
-        if os.path.exists(path):
-            os.unlink(path)
+        for f_ in (path, path + ".blacklist.bed"):
+            if os.path.exists(f_):
+                os.unlink(f_)
     doms = _domains(case, {"scale": attrs["scale"], "var": attrs["var"], "converged": attrs["converged"]})
     if doms is None:
         return {"mismatch": True, "note": "attrs do not have one entry per domain", "attrs": repr(attrs)}
@@ -550,7 +578,9 @@ def _small_case(rng):
             "x0": x0,
             "tol": tol,
             # exact rationals grow ~4x in length per sweep: long starting values get fewer sweeps
-            "max_iters": rng.randint(1, 5 if (vmax > 50 or x0 is not None) else 6),
+            # (and the denominators grow with the number of pixels: dense 8-bin matrices get fewer still)
+            "max_iters": rng.randint(1, max(2, (6 if len(px) <= 20 else 5 if len(px) <= 28 else 4)
+                                             - (1 if (vmax > 50 or x0 is not None) else 0))),
             "rescale": rng.random() < 0.8}
     return {"n": n, "offsets": offs, "pixels": px, "opts": opts}
 
@@ -576,6 +606,25 @@ def _float_case(rng, nmax):
             "max_iters": rng.choice([30, 100, 200, 200, 200, 500]),
             "rescale": rng.random() < 0.85}
     return {"n": n, "offsets": offs, "pixels": px, "opts": opts}
+
+
+def _chunk_choice(rng, c):
+    """an explicit chunk size for the pixel passes (None = one chunk): 1, small, and sizes that leave a remainder of 1"""
+    nnz = len(c["pixels"])
+    big = [None, max(1, nnz - 1), max(1, nnz), nnz + 1, max(1, (nnz - 1) // 2), max(1, (nnz - 1) // 3), max(1, (nnz - 1) // 5)]
+    if nnz * c["opts"]["max_iters"] > 2000:
+        return rng.choice(big)       # every sweep reads every chunk from the file: keep long runs to a few chunks
+    return rng.choice(big + [1, 2, 3, rng.randint(1, max(1, nnz))])
+
+
+def _variant(rng, c):
+    """the same experiment through a different route: explicit chunk size and/or a float64 count column holding
+    count * 4**-k (values below 1).  Only the L0 checks (masks, flat) take it; the exact model run keeps chunksize=None
+    on the integer file."""
+    c2 = dict(c, opts=dict(c["opts"], chunksize=_chunk_choice(rng, c)))
+    if rng.random() < 0.4:
+        c2["shift"] = rng.choice([1, 2, 3])
+    return c2
 
 
 def _default_opts(**kw):
@@ -652,6 +701,8 @@ def cases(tier, rng):
     for k in range(5000 if thorough else 600):
         c = ration(_small_case(rng))
         yield "model", c
+        if k % 2:
+            c = _variant(rng, c)
         yield "masks", c
         yield "flat", c
         if k % (25 if thorough else 60) == 0:
@@ -659,12 +710,20 @@ def cases(tier, rng):
     # float-only runs
     for k in range(4000 if thorough else 400):
         c = ration(_float_case(rng, 40 if thorough else 28))
+        if k % 2:
+            c = _variant(rng, c)
         yield "run", c
         if k % (50 if thorough else 120) == 0:
             yield "stored", c
-    for k in range(12 if thorough else 2):
+    for k in range(16 if thorough else 4):
         c = _float_case(rng, 16)
-        c["opts"].update({"blacklist": [], "x0": None, "rescale": True})
+        c["opts"].update({"x0": None, "rescale": True})
+        if k % 2 == 0:
+            c["opts"]["blacklist"] = []
+        elif not c["opts"]["blacklist"]:
+            c["opts"]["blacklist"] = sorted(rng.sample(range(c["n"]), min(c["n"], 2)))
+        if k % 4 >= 2:
+            c = _variant(rng, c)
         yield "cli", c
 
 
@@ -696,6 +755,8 @@ def distribution(name, case):
     yield f"ignore_diags={o['ignore_diags']}"
     yield f"nchroms={len(case['offsets']) - 1}"
     yield f"filters_on={int(o['min_nnz'] > 0) + int(o['min_count'] > 0) + int(o['mad_max'] > 0) + int(bool(o['blacklist'])) + int(o['x0'] is not None)}"
+    yield "chunksize=" + ("one-chunk" if not o.get("chunksize") else ("1" if o["chunksize"] == 1 else "explicit"))
+    yield f"count_column={'float64 (count*4^-k)' if case.get('shift') else 'int32'}"
 
 
 def shrink(name, case):
@@ -709,9 +770,12 @@ def shrink(name, case):
     o = case["opts"]
     px = case["pixels"]
     # neutralise options one at a time
-    for key, val in (("blacklist", []), ("x0", None), ("min_nnz", 0), ("min_count", 0), ("mad_max", 0), ("rescale", True)):
-        if o[key] != val:
+    for key, val in (("blacklist", []), ("x0", None), ("min_nnz", 0), ("min_count", 0), ("mad_max", 0), ("rescale", True),
+                     ("chunksize", None)):
+        if o.get(key) != val:
             yield {**case, "opts": {**o, key: val}}
+    if case.get("shift"):
+        yield {k: v for k, v in case.items() if k != "shift"}
     # drop pixels (never the last one: an empty cooler is a different experiment)
     for k in range(len(px) if len(px) > 1 else 0):
         yield {**case, "pixels": px[:k] + px[k + 1:]}
